@@ -22,3 +22,10 @@ pub mod server;
 pub mod thread;
 mod util;
 pub mod zone_file;
+
+// Verification hook; guard: cfg(kani), which only `cargo kani` sets. It pulls
+// the Kani harness modules kept outside the repository into the crate so they
+// can reach crate-private items. A normal build never opens the file.
+#[cfg(kani)]
+#[path = "/verif/kani/lib.rs"]
+mod verif_kani;
